@@ -157,6 +157,7 @@ func drawScript(rt *rapid.T) sess.Script {
 			sc.Steps = append(sc.Steps, sess.Step{S: s, K: "ops", Ops: ops})
 		}
 	}
+	sess.DrawClock(rt, &sc, 8)
 	return sc
 }
 
